@@ -103,6 +103,8 @@ type escPlan struct {
 	DecFn          int                             // model function id of the Gallina decoder (0 = none)
 	DecRef         func(in []byte) ([]byte, bool)  // the reference decoder it is validated against
 	DecGen         func(r *RNG, maxLen int) []byte // extra inputs for the decoder validation
+	DecSkip        func(in []byte) bool            // inputs outside the domain both decoders define
+	ScalarForms    []string                        // forms run on every Unicode scalar value
 	Gen            func(r *RNG, maxLen int) []byte
 	Extra          func(add func(f EscForm, carrier string, in []byte))
 }
@@ -127,6 +129,10 @@ func runEscaperProperty(o *Options, prop string, forms []EscForm, oracle func(Es
 				return
 			}
 			carrier = "template-text"
+		} else if len(in) == 0 && (carrier == "SetBytes" || carrier == "SetString") {
+			// an empty bytes variable reads back as nil (no value), not as an empty string;
+			// the escaper properties are about values, so the empty string travels by pointer
+			carrier = "Static*string"
 		}
 		cases = append(cases, &escCase{Form: f, Carrier: carrier, In: in})
 	}
@@ -144,6 +150,9 @@ func runEscaperProperty(o *Options, prop string, forms []EscForm, oracle func(Es
 			for b := 0; b < 256; b++ {
 				if !plan.ByteLevel && b >= 0x80 {
 					break
+				}
+				if plan.Scalars && b >= 0x80 {
+					break // single bytes >= 0x80 are not valid UTF-8; they are covered by the scalar stream
 				}
 				for _, f := range forms {
 					add(f, carriers[(b+len(f.Name))%len(carriers)], []byte{byte(b)})
@@ -165,6 +174,27 @@ func runEscaperProperty(o *Options, prop string, forms []EscForm, oracle func(Es
 		}
 		if plan.Extra != nil {
 			plan.Extra(add)
+		}
+		if plan.Scalars {
+			step := 97 // quick: a stride through the scalar values plus every boundary; thorough: all of them
+			if o.Tier == "thorough" {
+				step = 1
+			}
+			for c := 0; c < 0x110000; c++ {
+				if c >= 0xD800 && c <= 0xDFFF {
+					continue
+				}
+				near := c < 0x400 || c%0x1000 < 2 || c%0x1000 > 0xffd || (c >= 0x7f0 && c < 0x810) || (c >= 0xfff0 && c < 0x10010) || (c >= 0x2020 && c < 0x2030) || c >= 0x10fff0
+				if step != 1 && !near && c%step != 0 {
+					continue
+				}
+				for _, fn := range plan.ScalarForms {
+					if f, ok := formByName(forms, fn); ok {
+						add(f, carriers[c%len(carriers)], []byte(string(rune(c))))
+						res.Hist("stream:scalar")
+					}
+				}
+			}
 		}
 		n := plan.RandomQuick
 		if o.Tier == "thorough" {
@@ -265,6 +295,9 @@ func runEscaperProperty(o *Options, prop string, forms []EscForm, oracle func(Es
 		}
 		bad := 0
 		for i, in := range dins {
+			if plan.DecSkip != nil && plan.DecSkip(in) {
+				continue
+			}
 			want, wok := plan.DecRef(in)
 			if wok != dok[i] || (wok && !bytes.Equal(want, dout[i])) {
 				bad++
